@@ -30,19 +30,60 @@ package freelist
 //@ func (cp *FreeList) flushBlock(blk types.Block) (work types.Work, err error)  property C16
 //@   holds cp.flushLock
 
-//@ func (cp *FreeList) Close() (err error)  property C16
+//@ func (cp *FreeList) Close() (err error)  property C02 C17
 //@   exclusive Close runs after all users of the freelist have stopped (Store.Close contract, C17)
+//@   preserves cp
+//@   modifies cp.blockPool, cp.outstandingWork, cp.$pending, cp.file.$open
+//@   assert at before call (*os.File).Close: @C17-flush-before-close event("call:freelist.FreeList.Flush") == 1
+//@   ensures @C17-file-closed !cp.file.$open
+//@   ensures @C02-flushed err == nil ==> !cp.$pending
 
-//@ func (cp *FreeList) ToGC() (path string, err error)  property C16
+// ToGC (C03-D7, C13): an existing hand-over file is returned untouched (its entries are
+// reprocessed); otherwise the pool is flushed and the file renamed as a whole, and a fresh empty
+// file opened under the flush lock.
+//@ func (cp *FreeList) ToGC() (path string, err error)  property C03 C13
+//@   preserves cp
+//@   modifies cp.blockPool, cp.outstandingWork, cp.$pending, cp.file, cp.file.$open
+//@   ghost var gexists bool = false
+//@   ghost at after call os.IsNotExist#0: gexists = !$r0
+//@   assert at before call os.Rename#0: @D7-whole-file $a0 == old(cp.file.$name) && $a1 == old(cp.file.$name) + ".gc" && !gexists
+//@   assert at before call os.Rename#0: @D7-flushed-first event("call:freelist.FreeList.Flush") == 1 && held(cp.flushLock)
+//@   ensures @D7-existing-untouched gexists ==> event("call:os.Rename") == 0 && event("call:freelist.FreeList.Flush") == 0 && cp.file == old(cp.file) && cp.blockPool == old(cp.blockPool)
+//@   ensures @path err == nil ==> path == old(cp.file.$name) + ".gc"
 //@   unguarded FreeList.file cp.file is only written by ToGC itself, and ToGC is run by one goroutine at a time (the primary GC goroutine, or the upgrade before GC is started)
 
 //@ func (cp *FreeList) Iter() (it *Iterator, err error)  property C16
 //@   unguarded FreeList.file inspection helper used by tests only; not among the operations C16 lists
 
-//@ func (cp *FreeList) Flush() (work types.Work, err error)
+// Layer B (C13): Put appends exactly the block to the pool; Flush hands every pooled entry to
+// the writer exactly once, in order (12 bytes each), and empties the pool.
+//@ type FreeList
+//@   invariant @handles self.file != nil && self.writer != nil
+
+//@ func (cp *FreeList) Put(blk types.Block) (err error)  property C13
+//@   preserves cp
+//@   requires cp.outstandingWork < (1 << 62)
+//@   modifies cp.blockPool, cp.outstandingWork, elems(cp.blockPool)
+//@   ensures @appended len(cp.blockPool) == old(len(cp.blockPool)) + 1 && cp.blockPool[old(len(cp.blockPool))] == blk
+//@   ensures @kept forall i int :: 0 <= i && i < old(len(cp.blockPool)) ==> cp.blockPool[i] == old(cp.blockPool[i])
+//@   ensures @work cp.outstandingWork == old(cp.outstandingWork) + 12
+
+//@ func (cp *FreeList) flushBlock(blk types.Block) (work types.Work, err error)  property C13
+//@   holds cp.flushLock
+//@   ensures @work err == nil ==> work == 12
+//@   ensures @two-writes event("call:(*bufio.Writer).Write") <= 2 && (err == nil ==> event("call:(*bufio.Writer).Write") == 2)
+
+//@ func (cp *FreeList) Flush() (work types.Work, err error)  property C13
+//@   preserves cp
+//@   modifies cp.blockPool, cp.outstandingWork
 //@   abstract gap GAP-3: pool+file contents implement the ghost multiset
 //@   abstract modifies cp.$pending
 //@   abstract ensures err == nil ==> !cp.$pending
 //@   abstract ensures old(!cp.$pending) ==> !cp.$pending
+//@   ensures @pool-emptied old(len(cp.blockPool)) > 0 ==> len(cp.blockPool) == 0 && cp.outstandingWork == 0
+//@   ensures @nothing-to-do old(len(cp.blockPool)) == 0 ==> work == 0 && err == nil && event("call:freelist.FreeList.flushBlock") == 0 && cp.blockPool == old(cp.blockPool)
+//@   ensures @each-once err == nil ==> event("call:freelist.FreeList.flushBlock") == old(len(cp.blockPool)) && work == 12 * old(len(cp.blockPool))
+//@   loop 0 invariant held(cp.flushLock) && 0 <= $idx && $idx <= len(blocks) && blocks == old(cp.blockPool) && len(cp.blockPool) == 0 && cp.outstandingWork == 0
+//@   loop 0 invariant event("call:freelist.FreeList.flushBlock") == $idx && work == 12 * $idx
 //@ func (cp *FreeList) Sync() (err error)
 //@   trusted fsync of the freelist file: no effect on modelled state
